@@ -20,6 +20,8 @@ LEVEL_TEXT = ('Decides from the source: pack and unpack apply mirrored stages in
               'lines, before the line is decoded, and is never moved on a path that saw a partial line (also not by a context '
               'manager\'s exit); delivery is guarded by the seen-set; every exception unpack can raise for a corrupt line is skipped '
               'by receive. Interleavings of concurrent writers and file-system atomicity are not decided.')
+TECHNIQUE += "; file-lifecycle rule (removal/atexit registration of the queue file is dominated by 'path generated here and keep off'); module-level codec regexes resolved"
+LEVEL_TEXT += ' Added clause: a caller-supplied queue file is never scheduled for removal.'
 LEVEL_NOTE = 'Trusted: str.replace and re.sub scan left to right; a text-mode readline() returns a line without trailing newline only at end of file.'
 EXPLANATION = ('Static analysis of /repo sources, TatSu not imported. Stage sequences are extracted from the def-use chain of the '
                'value threaded through pack/unpack; regex literals of the codecs are compiled to NFAs by the checker; receive() is '
